@@ -156,8 +156,20 @@ def literal_phase(chk, gb, cases, outs, stats):
         open(lpath, 'w').write(gengen.lschema_txt(sch))
         keys = sorted(set((t, f['id']) for _, t, f, _ in fields))
         tys = sorted(set(t for t, _ in keys))
-        lines = ['lschema'] + ['lit %s %d' % k for k in keys] + ['ldflt %s' % t for t in tys]
+        cnames = list(sch.consts) if 'field_id' not in fields[0][3] else []
+        lines = ['lschema'] + ['lit %s %d' % k for k in keys] + ['ldflt %s' % t for t in tys] + ['lconst %d' % i for i in range(len(cnames))]
         mo = core.run_lines(runner, lines, args=[os.path.join(gb.out_dir, 'schema.txt'), lpath])
+        # const items: the value the model gives their definition (def_lit) = the meaning of their literal (Python lit_value);
+        # the implementation side is the compilation of the emitted `pub const` / `pub static` items
+        stats['consts_compared'] = len(cnames)
+        for g, o in zip(cnames, mo[1 + len(keys) + len(tys):]):
+            cty, clit, cdoc = sch.consts[g]
+            want = gengen.show(sch, cty, gengen.lit_value(sch, cty, clit, cdoc), nan_canon=True)
+            m = re.match(r'LCONST ok (.*)$', o or '')
+            if not m:
+                corr.append('the literal model predicts `%s` for the definition of const %s although the generator produced code' % ((o or '')[:60], g))
+            elif genrun.canon_nan_text(m.group(1)) != want:
+                corr.append('const %s: model const_value `%s`, Python lit_value `%s`' % (g, m.group(1)[:120], want[:120]))
         sline = mo[0] or ''
         for k, o in zip(keys, mo[1:1 + len(keys)]):
             mres[k] = o or ''
